@@ -40,12 +40,18 @@ func blockFacts(b *ssa.BasicBlock) []Fact {
 	if fs, ok := blockFactsMemo[b]; ok {
 		return fs
 	}
+	if blockFactsBusy[b] {
+		return nil // re-entered through a cycle: no facts (sound: facts only ever prune)
+	}
+	blockFactsBusy[b] = true
 	fs := blockFactsS(b, map[Fact]bool{})
+	delete(blockFactsBusy, b)
 	blockFactsMemo[b] = fs
 	return fs
 }
 
 var blockFactsMemo = map[*ssa.BasicBlock][]Fact{}
+var blockFactsBusy = map[*ssa.BasicBlock]bool{}
 
 func blockFactsS(b *ssa.BasicBlock, seen map[Fact]bool) []Fact {
 	var out []Fact
@@ -93,8 +99,8 @@ func expandFactN(f Fact, seen map[Fact]bool) []Fact {
 	}
 	seen[f] = true
 	var feasible []int
-	for i, e := range phi.Edges {
-		if !contradicts(e) {
+	for i := range phi.Edges {
+		if !contradicts(i) {
 			feasible = append(feasible, i)
 		}
 	}
@@ -149,14 +155,24 @@ func expandFactN(f Fact, seen map[Fact]bool) []Fact {
 }
 
 // phiFact: when f speaks about a phi — the phi itself as a boolean, or phi == K / phi != K with
-// a constant K (nil included) — it returns the phi and the test that rules an incoming value out:
-// a constant that compares the other way, or a value known to be non-nil when nil is asserted.
-func phiFact(f Fact) (*ssa.Phi, func(e ssa.Value) bool) {
+// a constant K (nil included) — it returns the phi and the test that rules incoming edge i out:
+// the value flowing in is a constant that compares the other way, is known to be non-nil when nil
+// is asserted, or is known — by a comparison that holds where it comes from — to compare the
+// other way.
+func phiFact(f Fact) (*ssa.Phi, func(i int) bool) {
 	switch c := f.Cond.(type) {
 	case *ssa.Phi:
-		return c, func(e ssa.Value) bool {
-			k, ok := e.(*ssa.Const)
-			return ok && k.Value != nil && constString(k.Value) != boolStr(f.Pol)
+		return c, func(i int) bool {
+			e := c.Edges[i]
+			if k, ok := e.(*ssa.Const); ok {
+				return k.Value != nil && constString(k.Value) != boolStr(f.Pol)
+			}
+			for _, g := range edgeFactsOf(c, i) {
+				if g.Cond == e && g.Pol != f.Pol {
+					return true
+				}
+			}
+			return false
 		}
 	case *ssa.BinOp:
 		if c.Op != token.EQL && c.Op != token.NEQ {
@@ -164,23 +180,69 @@ func phiFact(f Fact) (*ssa.Phi, func(e ssa.Value) bool) {
 		}
 		var phi *ssa.Phi
 		var k *ssa.Const
-		if p, ok := c.X.(*ssa.Phi); ok {
+		// (a variable that could not be lifted to a register — captured by a closure, say — is
+		// seen through when the value just stored into it, in the same block, is the phi)
+		if p, ok := resolveLoad(c.X).(*ssa.Phi); ok {
 			phi, k = p, constOperand(c.Y)
-		} else if p, ok := c.Y.(*ssa.Phi); ok {
+		} else if p, ok := resolveLoad(c.Y).(*ssa.Phi); ok {
 			phi, k = p, constOperand(c.X)
 		}
 		if phi == nil || k == nil {
 			return nil, nil
 		}
 		wantEq := assertsEq(c, f.Pol)
-		return phi, func(e ssa.Value) bool {
+		return phi, func(i int) bool {
+			e := phi.Edges[i]
 			if ek := constOperand(e); ek != nil {
 				return sameConst(ek, k) != wantEq
 			}
-			return wantEq && k.IsNil() && knownNonNil(e)
+			if wantEq && k.IsNil() && knownNonNil(e) {
+				return true
+			}
+			for _, g := range edgeFactsOf(phi, i) {
+				gb, ok := g.Cond.(*ssa.BinOp)
+				if !ok || (gb.Op != token.EQL && gb.Op != token.NEQ) {
+					continue
+				}
+				var k2 *ssa.Const
+				if gb.X == e {
+					k2 = constOperand(gb.Y)
+				} else if gb.Y == e {
+					k2 = constOperand(gb.X)
+				}
+				if k2 != nil && sameConst(k, k2) && assertsEq(gb, g.Pol) != wantEq {
+					return true
+				}
+			}
+			return false
 		}
 	}
 	return nil, nil
+}
+
+// resolveLoad: a load of a local whose most recent store, in the same block with nothing in
+// between that could write it, is known — that stored value; v itself otherwise.
+func resolveLoad(v ssa.Value) ssa.Value {
+	if ld, ok := v.(*ssa.UnOp); ok && ld.Op == token.MUL {
+		if a, ok := ld.X.(*ssa.Alloc); ok {
+			if sv := lastStoreBefore(a, ld); sv != nil {
+				return sv
+			}
+		}
+	}
+	return v
+}
+
+// edgeFactsOf: what is known when control arrives at phi's block over its i-th incoming edge.
+func edgeFactsOf(phi *ssa.Phi, i int) []Fact {
+	pred := phi.Block().Preds[i]
+	fs := append([]Fact{}, blockFacts(pred)...)
+	if len(pred.Instrs) > 0 {
+		if ifi, ok := pred.Instrs[len(pred.Instrs)-1].(*ssa.If); ok && pred.Succs[0] != pred.Succs[1] {
+			fs = append(fs, normFact(ifi.Cond, pred.Succs[0] == phi.Block()))
+		}
+	}
+	return fs
 }
 
 // deadEdges: the incoming edges of block b that the facts rule out. A fact about ANY phi of b
@@ -193,8 +255,8 @@ func deadEdges(b *ssa.BasicBlock, facts []Fact) map[int]bool {
 		if p == nil || p.Block() != b {
 			continue
 		}
-		for i, e := range p.Edges {
-			if contradicts(e) {
+		for i := range p.Edges {
+			if contradicts(i) {
 				dead[i] = true
 			}
 		}
@@ -256,53 +318,12 @@ func feasibleSuccs(pred, b *ssa.BasicBlock) []*ssa.BasicBlock {
 		if phi == nil || phi.Block() != b {
 			return b.Succs
 		}
-		if contradicts(phi.Edges[idx]) {
-			// the condition cannot have value pol: the other edge is taken
+		if contradicts(idx) {
+			// the condition cannot have value pol on this edge: the other branch is taken
 			if pol {
 				return b.Succs[1:2]
 			}
 			return b.Succs[:1]
-		}
-	}
-	// the incoming value is not a constant, but what is known about it where it comes from
-	// (a dominating comparison with the same constant) may decide the branch
-	nf := normFact(ifi.Cond, true)
-	if bo, ok := nf.Cond.(*ssa.BinOp); ok && (bo.Op == token.EQL || bo.Op == token.NEQ) {
-		var phi *ssa.Phi
-		var k *ssa.Const
-		if p, ok := bo.X.(*ssa.Phi); ok {
-			phi, k = p, constOperand(bo.Y)
-		} else if p, ok := bo.Y.(*ssa.Phi); ok {
-			phi, k = p, constOperand(bo.X)
-		}
-		if phi != nil && k != nil && phi.Block() == b {
-			e := phi.Edges[idx]
-			var known []Fact
-			known = append(known, blockFacts(pred)...)
-			if pi, ok := pred.Instrs[len(pred.Instrs)-1].(*ssa.If); ok && pred.Succs[0] != pred.Succs[1] {
-				known = append(known, expandFact(normFact(pi.Cond, pred.Succs[0] == b))...)
-			}
-			for _, f := range known {
-				fb, ok := f.Cond.(*ssa.BinOp)
-				if !ok || (fb.Op != token.EQL && fb.Op != token.NEQ) {
-					continue
-				}
-				var k2 *ssa.Const
-				if fb.X == e {
-					k2 = constOperand(fb.Y)
-				} else if fb.Y == e {
-					k2 = constOperand(fb.X)
-				}
-				if k2 == nil || !sameConst(k, k2) {
-					continue
-				}
-				eEqualsK := assertsEq(fb, f.Pol)
-				condTrue := assertsEq(bo, nf.Pol) == eEqualsK // value of the If's (normalised) condition on this edge
-				if condTrue {
-					return b.Succs[:1]
-				}
-				return b.Succs[1:2]
-			}
 		}
 	}
 	return b.Succs
@@ -708,4 +729,70 @@ func lastStoreBefore(a *ssa.Alloc, ld *ssa.UnOp) ssa.Value {
 		}
 	}
 	return nil
+}
+
+// An exitPath is one way of leaving a function: a Return together with one choice of incoming
+// edge for every merge (phi) its results come from. Code that assembles its results in
+// variables and returns once (as the expansion of a helper does) has one Return but several
+// exit paths; rules about "the return taken when …" quantify over exit paths.
+type exitPath struct {
+	ret   *ssa.Return
+	facts []Fact      // what holds on this path
+	vals  []ssa.Value // the result values on this path
+}
+
+func exitPaths(fn *ssa.Function) []exitPath {
+	var out []exitPath
+	var expand func(p exitPath, depth int)
+	expand = func(p exitPath, depth int) {
+		var phi *ssa.Phi
+		for _, v := range p.vals {
+			if ph, ok := v.(*ssa.Phi); ok && depth < 4 {
+				phi = ph
+				break
+			}
+		}
+		if phi == nil {
+			out = append(out, p)
+			return
+		}
+		b := phi.Block()
+		dead := deadEdges(b, p.facts)
+		for j, pred := range b.Preds {
+			if dead[j] {
+				continue
+			}
+			q := exitPath{ret: p.ret}
+			for _, v := range p.vals {
+				if ph, ok := v.(*ssa.Phi); ok && ph.Block() == b {
+					q.vals = append(q.vals, ph.Edges[j])
+				} else {
+					q.vals = append(q.vals, v)
+				}
+			}
+			q.facts = append(append([]Fact{}, p.facts...), blockFacts(pred)...)
+			if len(pred.Instrs) > 0 {
+				if ifi, ok := pred.Instrs[len(pred.Instrs)-1].(*ssa.If); ok && pred.Succs[0] != pred.Succs[1] {
+					q.facts = append(q.facts, expandFact(normFact(ifi.Cond, pred.Succs[0] == b))...)
+				}
+			}
+			expand(q, depth+1)
+		}
+	}
+	for _, b := range fn.Blocks {
+		ret, ok := b.Instrs[len(b.Instrs)-1].(*ssa.Return)
+		if !ok {
+			continue
+		}
+		p := exitPath{ret: ret, facts: factsAt(ret)}
+		for i := range ret.Results {
+			v := resultStored(ret, i)
+			if v == nil {
+				v = ret.Results[i]
+			}
+			p.vals = append(p.vals, v)
+		}
+		expand(p, 0)
+	}
+	return out
 }
